@@ -60,6 +60,15 @@ Theorem C18_legacy_box_misread_when_claimed key n box m m' : length n = nonce_le
   decrypt open_new open_old key (n ++ box) = Some m'.
 Proof. exact (legacy_box_misread_when_new_open_accepts open_new open_old key n box m m'). Qed.
 End C18.
+(* key derivation (deriveKey): the node key is argon2id(base64(context ++ passphrase), blake2b-128 of
+   the same bytes); with collision-free primitives two passphrases give the same key only if they
+   are the same bytes — no trimming, folding or truncation of the passphrase *)
+Theorem C18_every_byte_of_the_passphrase_counts
+        (b64 salt_of : bytes -> bytes) (argon : bytes -> bytes -> bytes)
+        (b64_inj : forall x y, b64 x = b64 y -> x = y)
+        (argon_inj : forall p s p' s', argon p s = argon p' s' -> p = p') master master' context :
+  derive_key b64 salt_of argon master context = derive_key b64 salt_of argon master' context -> master = master'.
+Proof. exact (derive_key_injective b64 salt_of argon b64_inj argon_inj master master' context). Qed.
 
 Print Assumptions C18_decrypt_inverts_encrypt.
 Print Assumptions C18_equal_plaintext_equal_ciphertext.
@@ -68,3 +77,4 @@ Print Assumptions C18_accepted_means_authenticated.
 Print Assumptions C18_rejected_by_both_is_an_error.
 Print Assumptions C18_legacy_box_readable_if_not_claimed.
 Print Assumptions C18_legacy_box_misread_when_claimed.
+Print Assumptions C18_every_byte_of_the_passphrase_counts.
